@@ -10,9 +10,12 @@ HARNESSES = [
     # case ("crash") instead of silently producing some value
     {"name": "ubsan", "src": "harness.cpp",
      "flags": ["-O1", "-DTETL_ENABLE_CONTRACT_CHECKS=1", "-fsanitize=undefined", "-fno-sanitize-recover=all"]},
-    # same cases compiled by clang++ 14: a second front end (rejects what GCC only warns about: bit_ceil<unsigned char>
-    # did not compile, fix c19f940), a second constant evaluator for `ctbits`, clang's expansion of the builtins
-    {"name": "clang", "src": "harness.cpp", "compiler": "clang++", "flags": ["-O1", "-DTETL_ENABLE_CONTRACT_CHECKS=1"]},
+    # same cases compiled by clang++ 14 with its UBSan: a second front end (rejects what GCC only warns about:
+    # bit_ceil<unsigned char> did not compile, fix c19f940), a second constant evaluator for `ctbits`, clang's expansion
+    # of the builtins, and a sanitizer that instruments BEFORE narrowing: g++ turns `(unsigned short)(int * int)` into
+    # 16-bit arithmetic and never traps on the int overflow, clang does (mutation M5 in REVIEW.md)
+    {"name": "clang", "src": "harness.cpp", "compiler": "clang++",
+     "flags": ["-O1", "-DTETL_ENABLE_CONTRACT_CHECKS=1", "-fsanitize=undefined", "-fno-sanitize-recover=all"]},
 ]
 
 RULE = ("8-bit types: every value (unary) and every pair (binary, same-type pairs and (i8,u8) for cmp; mixed-type pairs of gcd/lcm "
@@ -22,7 +25,9 @@ RULE = ("8-bit types: every value (unary) and every pair (binary, same-type pair
         "argument (3 chunks at each end, 5 around zero/the middle, every 6th in between); 32/64-bit: every single bit, all-ones-below-bit, +-1 neighbours, type limits "
         "(and their cross product for binary functions) plus seeded random values/pairs; rotation counts [-130,130] and "
         "the int limits; all 64 (T,U) pairs of the eight fixed-width types for cmp_*/in_range/saturate_cast/gcd/lcm over the "
-        "limits+-1 of every type; 'row' cases evaluate 256 (or 261) inputs per line; 'ctbits' = the <bit> functions on a 10-value table per unsigned type "
+"limits+-1 of every type (long long / unsigned long long as either type of a pair over the 32/64-bit limits); the template<Pos> single-bit overloads for every Pos of every type (u8: every word; wider: boundary + random words); ipow<Base> for seven bases; "
+        "'swp'/'swx' cases = the full 2^16 sweep of one argument of a 16-bit binary function with the other fixed (limits in quick, the whole boundary set in both orders in thorough), legs digested; "
+        "'row' cases evaluate 256 (or 261) inputs per line; 'ctbits' = the <bit> functions on a 10-value table per unsigned type "
         "evaluated by the constant evaluator (constexpr table in the harness); "
         "non-trivial = distinct case line whose impl leg is not unknown-op/crash")
 
@@ -231,6 +236,31 @@ def gen(tier, rng):
         for bv in (full if not quick else [hi, 27720 if lo < 0 else 30030]):
             for op in ("gcd", "lcm"):
                 rows(out, lo, hi, f"{op} {t} {t} {bv}", sample=True)
+    # the FULL 2^16 x boundary grid of the binary functions, legs digested (swp / swx: count, hash of the 65536
+    # sub-legs, first disagreeing value): quick = the two limits as the fixed argument, thorough = the whole boundary set,
+    # both argument orders
+    for t in ("i16", "u16"):
+        lo, hi = lim(t)
+        other = "u16" if t == "i16" else "i16"
+        SBV = small_boundary(t)
+        for bv in ([lo if lo < 0 else hi // 2 + 1, hi] if quick else SBV):
+            for op in ("add_sat", "div_sat", "midpoint"):
+                out.append(f"swp {lo} {hi} {op} {t} {bv}")
+                if not quick:
+                    out.append(f"swx {lo} {hi} {op} {t} {bv}")
+            out.append(f"swp {lim(other)[0]} {lim(other)[1]} cmp {t} {other} {bv}")
+            if not quick:
+                out.append(f"swp {lo} {hi} cmp {t} {t} {bv}")
+                if lo < 0:
+                    out.append(f"swp {lo} -1 idiv {t} {bv}")
+                out.append(f"swp 1 {hi} idiv {t} {bv}")
+                if bv != 0:
+                    out.append(f"swx {lo} {hi} idiv {t} {bv}")
+        for bv in ([hi] if quick else SBV[::3] + [hi]):
+            out.append(f"swp {lo} {hi} gcd {t} {t} {bv}")
+            if not quick:
+                out.append(f"swp {lo} {hi} lcm {t} {t} {bv}")
+                out.append(f"swp {lim(other)[0]} {lim(other)[1]} gcd {t} {other} {bv}")
     if not quick:
         for x in range(0, 65536, 37):
             out.append(f"row -130 130 rot u16 {x}")
